@@ -599,8 +599,13 @@ def _owning_rebinds(fi, name):
 def rule_mod3(prog, rep, tier, parsers=("parse.class_", "parse.function", "parse.argparse_ast", "parse._merge_inner_function")):
     """MOD-3: a parser writes AST fields of its input tree only after rebinding the name to a copy on every path."""
     n = 0
-    for q in parsers:
-        fi = prog.fn(q)
+    public = [prog.fn(q) for q in parsers if prog.has_fn(q) and not q.split(".")[-1].startswith("_")]
+    if len(public) < 3:
+        raise AnalysisError("MOD-3: public parsers not found: %r" % (parsers,))
+    fns = [f for f in prog.reachable(public) if f.module.name == "parse" and f.parent_fn is None and f.params()
+           and (f in public or f.params()[0] in ("class_def", "function_def", "node", "tree"))]
+    for fi in fns:
+        q = fi.qualname
         root = fi.params()[0]
         cfg = CFG(fi.node)
         # locals holding fresh trees count as owned roots from their definition
@@ -663,7 +668,7 @@ def rule_modf(prog, rep, tier, workers=("conformance._conform_filename", "sync_p
                     flags.add((a.id, pol))
         guarded_by[st] = flags
     for w in workers:
-        fi = prog.fn(w)
+        fi = prog.fn_role(w, "conform_file") if w == "conformance._conform_filename" else prog.fn(w)
         reads = [c for c in ast.walk(fi.node) if isinstance(c, ast.Call) and prog.is_fn(c.func, "source_transformer.ast_parse", c)]
         if not reads:
             raise AnalysisError("MOD-F: %s no longer reads its module through ast_parse" % w)
